@@ -157,6 +157,7 @@ class TwoRuns:
     def run_script(self, I, f):
         """The build script: arbitrary effect on the file system, then a symbolic termination report."""
         self.world.mutation_point(I, 'script running')
+        I.effect('script')
         self.world.havoc()
         self.world.mutation_point(I, 'script finished')
         r = f.get('result')
@@ -479,3 +480,67 @@ def _is(r, variant):
 
 def _is_err(r):
     return isinstance(r, REnum) and r.variant == 'Err'
+
+
+# ---------------------------------------------------------------------- C17: what a target holds while it waits
+LONG_WAITS = ('cmd_output', 'script')
+
+
+def check_shared_waits(arg):
+    """Per-target code of a build (incremental::run and everything below it, over the symbolic file system): on no feasible
+    path is an operation of unbounded duration (a user command, the build script) awaited while a synchronisation object
+    shared between targets (a static) is held.  Returns dict like check_scenario."""
+    tier, repo = arg
+    t0 = time.time()
+    out = {'scenario': None, 'obligations': [], 'error': None, 'paths': 0, 'functions': []}
+    try:
+        prog = Program(repo)
+        sc = [x for x in scenarios(tier) if x.name == 'ext_filter_and_command'][0]
+        out['scenario'] = sc.name
+        tr = TwoRuns(prog, sc, crash=False)
+        p1 = tr.phase1()
+        p2 = tr.phase2(p1)
+        out['paths'] = len(p1) + len(p2)
+        out['functions'] = sorted(tr.I.stats['fns'])
+        res = {'name': 'no_unbounded_wait_while_holding_a_lock_shared_between_targets', 'verdict': 'unsat', 'checked_paths': 0, 'locks_seen': [],
+               'desc': 'in incremental::run (state comparison, command inputs, the build script, state recording) no user command or script is awaited while a static lock is held'}
+        s = _solver(tr.world)
+        seen = set()
+        for run, paths in ((1, p1), (2, p2)):
+            for p in paths:
+                held = {}
+                hit = None
+                for kind, data in p.effects:
+                    if kind == 'lock':
+                        seen.add('%s %s' % (data.get('obj'), data.get('name') or '(local)'))
+                        if data.get('name'):
+                            held[data['gid']] = data['name']
+                    elif kind == 'unlock':
+                        held.pop(data.get('gid'), None)
+                    elif kind in LONG_WAITS and held and hit is None:
+                        hit = (sorted(set(held.values())), kind, data.get('cmd'))
+                res['checked_paths'] += 1
+                if hit is None:
+                    continue
+                c = p.cond()
+                s.push()
+                s.add(z3.BoolVal(c) if isinstance(c, bool) else c)
+                r = s.check()
+                s.pop()
+                if r == z3.sat and res['verdict'] != 'sat':
+                    res['verdict'] = 'sat'
+                    res['detail'] = 'run #%d: %s awaited while holding %s' % (run, 'the user command %r' % hit[2] if hit[1] == 'cmd_output' else 'the build script', ', '.join(hit[0]))
+                    res['lock'] = hit[0]
+                    res['wait'] = hit[1]
+                    res['run'] = run
+                elif r == z3.unknown and res['verdict'] == 'unsat':
+                    res['verdict'] = 'unknown'
+        res['locks_seen'] = sorted(seen)
+        out['obligations'].append(res)
+    except Unsupported as e:
+        out['error'] = 'unsupported: %s' % e
+    except Exception as e:   # pragma: no cover
+        import traceback
+        out['error'] = 'exception: %s\n%s' % (e, traceback.format_exc()[-1500:])
+    out['wall_s'] = round(time.time() - t0, 1)
+    return out
